@@ -35,10 +35,12 @@ OPT = (1,)
 MCS = (2,)
 
 
-def galg(depths, budget=120.0):
-    """Breadth-first search over single-thread histories of guard operations (harness/locks.cpp --galg): depths = {lock class: depth}."""
-    return [dict(h=L(lk), families=[], bound=0, budget=budget, job_budget=60.0, extra=["--galg", str(d)],
-                 label="guard-algebra histories, depth %d (breadth-first, keyed by implementation state)" % d)
+def galg(depths, budget=120.0, roots=None):
+    """Breadth-first search over single-thread histories of guard operations (harness/locks.cpp --galg): depths = {lock class: depth};
+    roots: program prefixes the search starts from (default: fresh locks, and version 0xfffffffe for OptimisticLock)."""
+    extra = ["--galg-roots", ",".join(r or "-" for r in roots)] if roots else []
+    return [dict(h=L(lk), families=[], bound=0, budget=budget, job_budget=60.0, extra=["--galg", str(d)] + extra,
+                 label="guard-algebra histories, depth %d%s (breadth-first, keyed by implementation state)" % (d, " from " + "/".join(r or "fresh" for r in roots) if roots else ""))
             for lk, d in depths.items()]
 
 
@@ -109,7 +111,7 @@ def lock_spec(prop, tier):
         if q:
             return (lr(fam("opt1", "opt2", "republish", locks=OPT), -1) + lr(fam("opt2x2", locks=OPT), 2)
                     + lr(fam("opt1", locks=OPT), 2, dev=1) + lr(fam("opt2", locks=OPT), 2, dev=1) + galg({1: GQ[1]}))
-        return (galg({1: GT[1]}, 900) + lr(fam("opt1", "opt2", "republish", "opt2x2", locks=OPT), -1, **T)
+        return (galg({1: GT[1]}, 900) + galg({1: GT[1]}, 900, roots=["v=1;"]) + lr(fam("opt1", "opt2", "republish", "opt2x2", locks=OPT), -1, **T)
                 + lr(fam("opt3", locks=OPT), 4, **T)
                 + lr(fam("opt2", "republish", "opt2x2", locks=OPT), -1, retry=1, **T)
                 + lr(fam("opt2", "republish", locks=OPT), 3, dev=1, **T)
